@@ -12,8 +12,8 @@ import (
 	"github.com/nginx/kubernetes-ingress/internal/k8s/appprotectdos"
 	"github.com/nginx/kubernetes-ingress/internal/k8s/secrets"
 	conf_v1 "github.com/nginx/kubernetes-ingress/pkg/apis/configuration/v1"
-	dos_v1beta1 "github.com/nginx/kubernetes-ingress/pkg/apis/dos/v1beta1"
 	"github.com/nginx/kubernetes-ingress/pkg/apis/configuration/validation"
+	dos_v1beta1 "github.com/nginx/kubernetes-ingress/pkg/apis/dos/v1beta1"
 	api_v1 "k8s.io/api/core/v1"
 	networking "k8s.io/api/networking/v1"
 	metav1 "k8s.io/apimachinery/pkg/apis/meta/v1"
@@ -38,7 +38,7 @@ func (s verifRecStore) GetByKey(key string) (interface{}, bool, error) {
 type verifRecSecrets struct{ log *[]string }
 
 func (s *verifRecSecrets) AddOrUpdateSecret(_ *api_v1.Secret) {}
-func (s *verifRecSecrets) DeleteSecret(_ string)               {}
+func (s *verifRecSecrets) DeleteSecret(_ string)              {}
 func (s *verifRecSecrets) GetSecretReferenceMap() map[string]*secrets.SecretReference {
 	return map[string]*secrets.SecretReference{}
 }
@@ -79,8 +79,12 @@ func (a *verifRecAP) AddOrUpdateLogConf(_ *unstructured.Unstructured) ([]appprot
 func (a *verifRecAP) AddOrUpdateUserSig(_ *unstructured.Unstructured) (appprotect.UserSigChange, []appprotect.Problem) {
 	return appprotect.UserSigChange{}, nil
 }
-func (a *verifRecAP) DeletePolicy(_ string) ([]appprotect.Change, []appprotect.Problem)  { return nil, nil }
-func (a *verifRecAP) DeleteLogConf(_ string) ([]appprotect.Change, []appprotect.Problem) { return nil, nil }
+func (a *verifRecAP) DeletePolicy(_ string) ([]appprotect.Change, []appprotect.Problem) {
+	return nil, nil
+}
+func (a *verifRecAP) DeleteLogConf(_ string) ([]appprotect.Change, []appprotect.Problem) {
+	return nil, nil
+}
 func (a *verifRecAP) DeleteUserSig(_ string) (appprotect.UserSigChange, []appprotect.Problem) {
 	return appprotect.UserSigChange{}, nil
 }
